@@ -181,11 +181,19 @@ def make_B(ctx, how, A, name="B", others=()):
         return pickle.loads(pickle.dumps(q)).units.registry
     if how == "deepcopy":
         return copy.deepcopy(A)
-    if how == "copy_shallow":  # a unit that did not come from a string: Unit.copy() builds a new Unit around copy.copy(registry)
-        u = unyt.Unit(FOO, registry=A) * unyt.Unit(BAR, registry=A)
-        return u.copy().registry
-    if how == "copy_shallow_str":  # a unit that came from a string
-        return unyt.Unit(FOO, registry=A).copy().registry
+    if how in ("copy_shallow", "copy_shallow_str"):
+        if how == "copy_shallow":  # a unit that did not come from a string
+            u = unyt.Unit(FOO, registry=A) * unyt.Unit(BAR, registry=A)
+        else:  # a unit that came from a string
+            u = unyt.Unit(FOO, registry=A)
+        r = u.copy().registry
+        # since fix 2219b71 a shallow Unit.copy() shares the registry OBJECT (no second registry exists, nothing to isolate);
+        # what must never come back is the half-shared copy: a distinct registry object writing into the same dicts
+        ctx.require("shallow Unit.copy(): the registry object itself or no shared table",
+                    r is A or (r.lut is not A.lut and r._unit_object_cache is not A._unit_object_cache))
+        if r is A:
+            return copy.deepcopy(A)  # the interleaving continues with an independent second registry
+        return r
     if how == "copy_deep":
         u = unyt.Unit(FOO, registry=A) * unyt.Unit(BAR, registry=A)
         return u.copy(deep=True).registry
